@@ -262,6 +262,9 @@ PROPS = {    "C01": {
              "quick": {"entry": "VerifHarness_C11_big", "flags": C12_FLAGS[:-1] + ["3000"], "sample_paths": 1,
                        "bounds": {"attempts": 1, "captured_output_len": "<= 100000 bytes, symbolic (crosses the 65536-byte pipe capacity)", "pipe_capacity": 65536}}},
             param_ob("C11", ["C11."], ["C11.params/positional-parameter-has-exactly-the-given-value", "C11.params/named-parameter-has-exactly-the-given-value"]),
+            {"name": "C11.params-2", "pkg": "./internal/persistence/model", "replay": "R1", "label_prefixes": ["C11."], "must_assert": ["C11.params/positional-parameter-has-exactly-the-given-value"],
+             "quick": {"entry": "VerifHarness_C11_paramsL1", "flags": PARAM_FLAGS, "sample_paths": 1, "bounds": {"parameters": 1, "value_len": "0..1"}},
+             "thorough": {"entry": "VerifHarness_C11_params2x1", "flags": PARAM_FLAGS, "sample_paths": 2, "timeout_s": 3600, "bounds": {"parameters": 2, "value_len": "0..1 each"}}},
         ],
         "assumptions": C12_ASSUME + PARAM_ASSUME + ["os.Pipe: a write that would take the pipe beyond 65536 bytes blocks until a thread is reading the pipe to EOF (io.Copy), forever if none does; io.Copy from a pipe returns after the write end is closed"],
         "outside_claim": COMMON_OUTSIDE + ["parameter strings with more than one parameter, values longer than 3 bytes, backslashes / command substitution / variable expansion inside parameter values; parameters overridden at start (same parser, other entry)",
